@@ -95,6 +95,7 @@ class WsPeer:
         self.accepted = False
         self.rejected = None
         self.sent_after_close = 0
+        self.fail_accept = False   # the connection fails while the WebSocket is being accepted
 
     def send(self, frame):
         self.to_server.append(frame)
@@ -116,6 +117,9 @@ def make_ws_class(k):
 
         def __call__(self, environ, start_response):
             self.peer = environ['sim.ws']
+            if self.peer.fail_accept:
+                # what simple_websocket.Server(environ) does when the socket cannot be obtained / the handshake fails
+                raise RuntimeError('Cannot obtain socket from WSGI environment.')
             self.peer.accepted = True
             return self.app(self)
 
@@ -297,8 +301,8 @@ class ThreadedSut:
             body = body.encode('utf-8')
         return self.request('POST', 'transport=polling&sid=%s%s' % (sid, extra), headers, body, declared_len)
 
-    def ws_upgrade(self, sid, headers=None):
-        ws = WsPeer()
+    def ws_upgrade(self, sid, headers=None, peer=None):
+        ws = peer or WsPeer()
         h = {'Upgrade': 'websocket', 'Connection': 'Upgrade'}
         h.update(headers or {})
         return self.request('GET', 'transport=websocket&sid=%s' % sid, h, ws=ws)
